@@ -8,8 +8,8 @@ from checks import callcommon, ctxcommon
 from framework import Case
 
 PROP = "C08"
-GENERATED = ['ErrorTable', 'OpSemantics', 'DtypeTables', 'Core', 'SrcErrors', 'SrcExpand', 'Wrapper', 'HintLoop', 'Decorate', 'Classes', 'ShapeLoop', 'SrcHints', 'SrcDecorate', 'Resolve']  # generated files this check's tie depends on
-LEAN_MODULES = ["Properties.C08", "Properties.C08b", "Properties.Core", "Properties.Prov.Errors", "Properties.Prov.Expand", "Properties.CoreWrap", "Properties.CoreHints", "Properties.CoreDecorate", "Properties.CoreClasses", "Properties.CoreShape", "Properties.Prov.Hints", "Properties.Prov.Decorate", "Properties.CoreResolve"]
+GENERATED = ['ErrorTable', 'OpSemantics', 'DtypeTables', 'Core', 'SrcErrors', 'SrcExpand', 'Wrapper', 'HintLoop', 'Decorate', 'Classes', 'ShapeLoop', 'SrcHints', 'SrcDecorate', 'Resolve', 'SrcSurface', 'SrcConstants']  # generated files this check's tie depends on
+LEAN_MODULES = ["Properties.C08", "Properties.C08b", "Properties.Core", "Properties.Prov.Errors", "Properties.Prov.Expand", "Properties.CoreWrap", "Properties.CoreHints", "Properties.CoreDecorate", "Properties.CoreClasses", "Properties.CoreShape", "Properties.Prov.Hints", "Properties.Prov.Decorate", "Properties.CoreResolve", "Properties.Prov.Surface", "Properties.Prov.Constants"]
 RULE = (
     "corpus; seeded contexts built conforming and then given exactly one perturbation (one axis resized, an axis added or dropped, dtype "
     "changed, value replaced by None / a non-array) plus multi-fault contexts (2 perturbations) and contexts whose expressions divide by a "
@@ -263,3 +263,32 @@ def custom(run, tier):
     run.n_distinct_nontrivial += n
     run.dist["callables"] += n
     run.coverage["callable_kinds"] = list(kinds)
+    # Warnings turned into errors (`-W error`, pytest's `filterwarnings = error`) and a rejection that takes a while to reach — a long
+    # tuple whose offender comes near the end: what reaches the caller is still the DLTypeError of its kind with its report, not a
+    # warning issued on the way out.  (The threshold of the timing warning is the one of the tree under test.)
+    T = typing.Annotated[np.ndarray, dltype.FloatTensor["n 3"]]
+    for k in (500, 4000):
+        ns2 = {"T": T, "dltype": dltype}
+        exec(compile(f"def many(xs: tuple[{', '.join(['T'] * k)}]) -> None:\n    return None\n", "<c08long>", "exec", dont_inherit=True), ns2)  # noqa: S102
+        with warnings.catch_warnings():
+            warnings.simplefilter("ignore")
+            many = dltype.dltyped()(ns2["many"])
+        good, odd = z(2, 3), z(2, 4)
+        for pos in (k - 1, k // 2):
+            vals = tuple(odd if i == pos else good for i in range(k))
+            with warnings.catch_warnings():
+                warnings.simplefilter("error")
+                try:
+                    many(vals)
+                    got = "ok"
+                except dltype.DLTypeShapeError as e:
+                    got = f"DLTypeShapeError tensor={e._tensor_name} dim={e._index} expected={e._expected} actual={e._actual}"
+                except BaseException as e:  # noqa: BLE001
+                    got = f"{type(e).__name__}: {str(e)[:80]}"
+            want = f"DLTypeShapeError tensor=xs[{pos}] dim=1 expected=3 actual=4"
+            run.n_cases += 1
+            run.n_distinct_nontrivial += 1
+            run.dist["warnings-as-errors"] += 1
+            if got != want:
+                run.findings.append(Finding("failing-input", f"with warnings turned into errors, a tuple of {k} arrays whose element {pos} has a wrong axis is answered with {got!r}, expected {want!r}",
+                                            Case(f"WERROR\ttuple[{k} x FloatTensor['n 3']]\toffender={pos}", "warnings-as-errors"), got, "", want))
